@@ -2867,21 +2867,38 @@ func (dsc *dataStoreCommand) setMove(source, destination, memberName string) (ou
 		return
 	}
 
+	// an existing destination has to be a set as well, whether or not the member is found
+	if dsk, destExists := dsc.getKeyObjectUnlocked(destination); destExists && dsk.getSet() == nil {
+		output.data = wrongTypeError
+		return
+	}
+
 	_, exists := ss.get(memberName)
 	if !exists {
 		output.data = respInt(0)
 		return
 	}
 
-	added, wrongType := dsc.setAddWorkerUnlocked(destination, []string{memberName}, SET_NOT_EXIST)
+	if source == destination {
+		// nothing to move
+		output.data = respInt(1)
+		return
+	}
+
+	_, wrongType := dsc.setAddWorkerUnlocked(destination, []string{memberName}, SET_NOT_EXIST)
 	if wrongType {
 		output.data = wrongTypeError
 		return
 	}
 
 	ss.remove(memberName)
+	if ss.count == 0 {
+		// a set never exists empty
+		dsc.ds.data.remove(source)
+	}
 
-	output.data = respInt(added)
+	// the member was moved, even when the destination already had it
+	output.data = respInt(1)
 	return
 }
 
